@@ -124,7 +124,7 @@ def boundedNat (s : String) (hi : Nat) : Option Nat := do
   let n ← s.toNat?
   if n ≤ hi then some n else none
 
-def stepOp (a : TAcc) (line : String) : TAcc :=
+def stepOp1 (a : TAcc) (line : String) : TAcc :=
   if a.err.isSome then a else
   let a := { a with nops := a.nops + 1 }
   let bad := expectExact a "bad-op"
@@ -262,6 +262,25 @@ def stepOp (a : TAcc) (line : String) : TAcc :=
       | _ => fail a s!"impl=[{l}] expected a cleanup line"
   | ["fin"] => if a.fin then bad else takeEvents a
   | _ => bad
+
+/-- `offloop n dur`: the loop is stopped, the main thread submits n tasks with completion callbacks, waits for the
+bodies, runs the loop again.  Answer shape = n exec answers, then `P offloop ok`. -/
+def stepOp (a : TAcc) (line : String) : TAcc :=
+  if a.err.isSome then a else
+  match words line with
+  | ["offloop", n, dur] =>
+    match boundedNat n 64, boundedNat dur 20000 with
+    | some n, some _ =>
+      if n == 0 || !a.configured || a.h.tasks.size + n ≥ 4096 then expectExact { a with nops := a.nops + 1 } "bad-op" else
+      let a1 := (List.range n).foldl (fun acc _ => { stepOp1 acc s!"exec 0 1 {dur}" with nops := acc.nops }) { a with nops := a.nops + 1 }
+      if a1.err.isSome then a1 else
+      (match nextLine a1 with
+       | (some "P offloop ok", a2) => { a2 with tags := "offloop" :: a2.tags }
+       | (some "P offloop timeout", _) => fail a1 "offloop: tasks submitted while the loop was stopped were not executed within the watchdog time"
+       | (some l, _) => fail a1 s!"impl=[{l}] expected an offloop line"
+       | (none, _) => fail a1 "implementation output ends inside offloop (crash / timeout)")
+    | _, _ => expectExact { a with nops := a.nops + 1 } "bad-op"
+  | _ => stepOp1 a line
 
 structure DS where
   ops : Array String := #[]
